@@ -43,7 +43,7 @@ var optionSets = [][]string{
 	{"keep_unknown_fields"},
 	{"value_type_in_container"},
 	{"compatible_names"},
-	{"gen_setter", "nil_safe", "reorder_fields"},
+	{"gen_setter", "nil_safe"}, // not reorder_fields: it permutes the fields of declared structs, also on the wire (legal, but the byte comparison with the model is order sensitive)
 	{"naming_style=apache", "json_enum_as_text"},
 	{"enum_as_int_32", "gen_deep_equal"},
 	{"validate_set=false"},
@@ -525,6 +525,7 @@ func (g *caseGen) service(svc *svcInfo, nper int) []*opCase {
 			var reply []byte
 			exp := map[string]string{}
 			var body []byte
+			bodyBad := false
 			if !m.Oneway {
 				rec := valgen.Gen(g.r, s, m.ResSidx, 1+g.r.Intn(3), g.vcfg) // any subset of success / exceptions set
 				b, err := refcodec.Encode(s, m.ResSidx, rec)
@@ -533,7 +534,7 @@ func (g *caseGen) service(svc *svcInfo, nper int) []*opCase {
 				}
 				body = b
 				if _, err := refcodec.Decode(s, m.ResSidx, b); err != nil {
-					exp["damaged"] = "1" // a required member is missing somewhere inside: the client's reader stops half way
+					bodyBad = true // a required member is missing somewhere inside: the client's reader stops half way
 				}
 			} else {
 				body = []byte{0}
@@ -541,6 +542,9 @@ func (g *caseGen) service(svc *svcInfo, nper int) []*opCase {
 			switch x := g.r.Intn(9); x {
 			case 0:
 				reply = joinMsg(m.Name, 2, seq, body)
+				if bodyBad {
+					exp["damaged"] = "1"
+				}
 				g.out.Count("case.recv.reply_any_fields")
 			case 1:
 				reply = joinMsg(m.Name, 2, seq+1+int32(g.r.Intn(5)), body)
@@ -571,6 +575,9 @@ func (g *caseGen) service(svc *svcInfo, nper int) []*opCase {
 					reply = joinMsg(m.Name, 2, seq, refcodec.Join(fs))
 				} else {
 					reply = joinMsg(m.Name, 2, seq, body)
+				}
+				if bodyBad {
+					exp["damaged"] = "1"
 				}
 				g.out.Count("case.recv.unknown_result_field")
 			case 7: // truncated reply
